@@ -339,8 +339,8 @@ class C12(Sim):
                     break
                 if not m.enabled:
                     st.hit("probes.disabled_variable_untouched")
-                    if stub.calls != calls0:
-                        viol = Violation("disabled_variable_defuzzified", i)
+                    if stub.calls != calls0:  # not an alarm by itself: "left untouched" is judged on the variable's state below
+                        st.hit("outcomes.defuzzifier_called_for_disabled_variable")
                 if last_was_nan_then_clear and vs[0] != vs[0] and m.lock_previous and m.enabled:
                     st.hit("probes.clear_between_nan_and_predecessor")
                 m.call(vs, st)
@@ -362,15 +362,15 @@ class C12(Sim):
                         st.hit("probes.failure_as_first_call")
                     if terms_ids:
                         st.hit("probes.failure_with_nonempty_fuzzy_output")
-                    if raised is not e:
-                        viol = Violation("failure_not_propagated", i, injected=op["exc"],
-                                         got=type(raised).__name__ if raised else "no exception")
-                    elif (cv(ov.value), fx(ov.previous_value)) != before:
+                    # the property is about the state after the failure, not about how the failure travels:
+                    st.hit("outcomes.failure_propagated_unchanged" if raised is e else
+                           ("outcomes.failure_wrapped_or_replaced" if raised is not None else "outcomes.failure_swallowed"))
+                    if (cv(ov.value), fx(ov.previous_value)) != before:
                         viol = Violation("state_changed_by_failed_defuzzification", i, injected=op["exc"],
                                          before=list(before[0]) + [before[1]],
                                          after=list(cv(ov.value)) + [fx(ov.previous_value)])
                 elif raised is not None:
-                    viol = Violation("disabled_variable_defuzzified", i, exception=type(raised).__name__)
+                    st.hit("outcomes.defuzzifier_called_for_disabled_variable")
                 sig.append("F")
             elif kind == "clear":
                 ov.clear()
